@@ -2,11 +2,56 @@
 import random
 
 import e2e
+from core import Family, run_model, run_impl
 from props import C01 as _c01
 
-GEN_FILES = ["SolveBrute.v", "EntryPoint.v", "StateSpaceGlue.v", "ChoiceAxes.v"]
-TRUSTED = e2e.TRUSTED
+GEN_FILES = ["SolveBrute.v", "EntryPoint.v", "StateSpaceGlue.v", "ChoiceAxes.v", "VariableInfo.v"]
+RUNNERS = ["vinfo_runner"]
+TRUSTED = e2e.TRUSTED + ["translator/py2coq_vinfo.py: a pandas DataFrame as the list of its rows, columns as functions of the variable, query/loc; tied by family variable_info_vs_regenerated (bin/vinfo_runner)"]
 ASSUMPTIONS = e2e.ASSUMPTIONS + ["grid sizes are generated pairwise different so that any transposition of axes changes the shape or the content"]
+
+
+def fam_variable_info(rng, n):
+    fam = Family("variable_info_vs_regenerated",
+                 "random whole models (shuffled declaration order of states, choices and functions; filters, stochastic and auxiliary "
+                 "states in rotation): every row and the row ORDER of lcm.input_processing.util.get_variable_info vs the regenerated "
+                 "get_variable_info (Gen/VariableInfo.v) extracted to OCaml, on the model's declarations and what dags reports "
+                 "(stochastic transitions, auxiliary variables, ancestors of the filters); non-trivial = the canonical order differs "
+                 "from the declaration order")
+    feats = [{"period_filter", "two_filters"}, {"filter"}, set(), {"filter", "stochastic"}, {"mixed_discrete_choices", "filter"},
+             {"two_cont_choices"}, {"period_filter", "stochastic"}]
+    cases = e2e.gen_cases(rng, n, fn="variable_info", features=feats)
+    wc = [e2e.wire(c) for c in cases]
+    ires = run_impl(wc)
+    mc, keep = [], []
+    for w, i in zip(wc, ires):
+        if isinstance(i, dict) and "error" in i:
+            keep.append(None)
+            continue
+        m = {"fn": "variable_info"}
+        m.update(i["inputs"])
+        keep.append(len(mc))
+        mc.append(m)
+    mres = run_model(mc, runner="vinfo_runner")
+    for w, i, k in zip(wc, ires, keep):
+        if k is None:
+            fam.count({"py": w["py"]}, False)
+            fam.violations.append({"case": w, "impl": i, "what": "get_variable_info raised: " + str(i.get("detail"))[:200]})
+            continue
+        s = mres[k]
+        decl = [n_ for n_, _ in i["inputs"]["states"]] + [n_ for n_, _ in i["inputs"]["choices"]]
+        fam.count({"py": w["py"]}, [r[0] for r in i["rows"]] != decl)
+        for key, flag in (("with_restricted", 6), ("with_stochastic", 4), ("with_auxiliary", 5)):
+            if any(r[1][flag] for r in i["rows"]):
+                fam.bump(key)
+        if isinstance(s, dict) and "error" in s:
+            fam.disagreements.append({"case": w, "model": s, "what": "runner error"})
+        elif s.get("rows") != i["rows"]:
+            fam.disagreements.append({"case": w, "model": s, "impl": i["rows"],
+                                      "what": "get_variable_info differs from the regenerated definition (rows or their order)"})
+        else:
+            fam.exact += 1
+    return fam
 
 
 def run(tier, seed):
@@ -16,7 +61,7 @@ def run(tier, seed):
     feats = [f | {"separating"} for f in feats]      # values that tell the states apart
     fam, _ = e2e.fam_solve(rng, 36 * k, name="layout_vs_spec", features=feats, jit_modes=(True,))
     fam2, _ = e2e.fam_simulate(rng, 8 * k, judge=("C05",), name="locate_vs_solution")
-    return [fam, fam2]
+    return [fam, fam2, fam_variable_info(rng, 30 * k)]
 
 
 matches_signature, replay_known, replay = _c01.matches_signature, _c01.replay_known, _c01.replay
